@@ -65,6 +65,7 @@ type loopCut struct {
 	freshAt  int              // number of fresh objects at the cut
 	lets     map[string]Value
 	evBase   int
+	locks    map[string]int // mutexes held at the cut
 }
 
 type State struct {
